@@ -44,6 +44,10 @@ def run(ctx):
         combos = [(1, 0, 1, 50, 1), (2, 1, 0, 50, 0), (2, 0, 1, 50, 0)] if quick else \
                  [(1, 0, 1, 300, 1), (2, 1, 0, 300, 1), (2, 0, 1, 300, 1), (1, 1, 1, 200, 1), (3, 0, 0, 300, 1)]
         procs = [pipeline(ctx, "p%dd%dl%d" % c[:3], "c02", list(c)) for c in combos]
+        # a graceful stop while the write of one seed's response is being held: if that seed is still reported finished,
+        # its records must be there (whether the worker hands it on is up to the scheduler: several cases)
+        for i in range(4 if quick else 10):
+            procs.append(pipeline(ctx, "stophold%d" % i, "c02", [1 + i % 2, 0, 1, 8, 0, "stophold"]))
         traces = []
         for p, t, d in procs:
             try:
